@@ -136,13 +136,24 @@ def start_texts(ctx, prop, res):
 
 def focus_env(prop):
     # which expensive clause groups the trace specification evaluates for this property
-    return {"F_VALUE": "1" if prop in ("C01",) else "0",
+    return {"F_IMPL": "1" if prop in ("C01", "C06") else "0",
+            "F_VALUE": "1" if prop in ("C01",) else "0",
             "F_SOL": "1" if prop in ("C02",) else "0",
             "F_RT": "1" if prop in ("C04",) else "0"}
 
 
 def run_family(ctx, cases, prop):
     res = Result()
+    if cases is None and prop == "C01":
+        # model level: the implementation-shaped rules (RulesImpl.tla) satisfy the relational contract on every term of the
+        # bounded domain, at every node, for every rule instance - checked by TLC without running any code. It speaks for
+        # the code as long as the trace-level drift between the real rules and RulesImpl is zero (reported below).
+        for cfg in (["MC_RulesImpl_quick.cfg"] if ctx.quick else ["MC_RulesImpl_thorough.cfg", "MC_RulesImpl_sessions.cfg"]):
+            m = tlc.run("MC_RulesImpl", cfg, ctx.work, workers=16, timeout=3400, xmx="10g")
+            res.add_tlc(m, "rules model " + cfg)
+            if not m.ok():
+                raise tlc.TLCError("RulesImpl violates the relational contract (%s): a rule design that changes the value\n%s" % (m.violated, m.out[-3000:]))
+            res.extra.setdefault("rules_model_terms", []).append(m.distinct)
     if cases is None:
         texts, res.rule = start_texts(ctx, prop, res)
         res.exhaustive = False
@@ -193,6 +204,10 @@ def run_family(ctx, cases, prop):
         for c in cl:
             if c.startswith("note_"):
                 notes[c] = notes.get(c, 0) + 1
+    for dk in ("drift_impl_applicability", "drift_impl_result", "drift_impl_probe", "note_impl_unmodelled"):
+        res.extra[dk] = sum(1 for cl in fails.values() if dk in cl)
+    drift_examples = [events[eid - 1] for eid, cl in sorted(fails.items()) if any(c.startswith("drift_impl") for c in cl)][:5]
+    res.extra["drift_impl_examples"] = [{"text": e["text"], "rule": e["rule"], "opt": e["opt"], "k": e.get("k"), "printed": e.get("printed")} for e in drift_examples]
     res.extra["drift_str_vs_printer_model"] = sum(1 for cl in fails.values() if "drift_printer_model" in cl)
     res.extra.update({"validator": st, "start_texts": len(texts), "steps": len(steps), "probes": len(events) - len(steps),
                       "steps_by_rule": by_rule, "skipped": notes})
